@@ -49,11 +49,120 @@ func Generate(profile string, seed uint64, tier string) (*Scenario, error) {
 		}
 		sc.Datasets = c.Datasets
 		sc.Ops = g.GenStoreHistory(c)
+	case "C05":
+		sc.Property = "C05"
+		genC05(g, sc, tier)
 	default:
 		return genOther(g, sc, profile, tier)
 	}
 	return sc, nil
 }
+
+// uniqueMark makes every written version attributable to one operation.
+func uniqueMark(ents []Ent, mark string) {
+	for i, e := range ents {
+		p, _ := e["props"].(map[string]any)
+		if p == nil {
+			p = map[string]any{}
+			e["props"] = p
+		}
+		p[MkS+"w"] = fmt.Sprintf("%s.%d", mark, i)
+	}
+}
+
+func genC05(g *G, sc *Scenario, tier string) {
+	c := g.baseStoreCfg(tier)
+	nds := g.Range(2, 3)
+	c.Datasets = []string{"dsA", "dsB", "dsC"}[:nds]
+	c.PNested = 0
+	c.MaxBatch = g.Range(1, 3)
+	sc.Datasets = c.Datasets
+	m := NewModel()
+	for _, d := range c.Datasets {
+		m.Create(d)
+	}
+	nw := g.Range(2, 4)
+	for w := 0; w < nw; w++ {
+		var ops []Op
+		n := g.Range(1, 4)
+		for i := 0; i < n; i++ {
+			mark := fmt.Sprintf("t%do%d", w, i)
+			if g.P(0.55) {
+				// transaction over 2..n datasets in a random order
+				perm := g.r.Perm(len(c.Datasets))
+				np := g.Range(2, len(c.Datasets))
+				var parts []Part
+				for _, pi := range perm[:np] {
+					ents := g.batch(c, m, c.Datasets[pi])
+					uniqueMark(ents, mark+c.Datasets[pi])
+					parts = append(parts, Part{DS: c.Datasets[pi], Ents: ents})
+				}
+				if g.P(sc0(sc, "pCoreInTxn", 0.008)) {
+					parts = append(parts, Part{DS: "core.Dataset", Ents: []Ent{{"id": MkE + "x", "props": map[string]any{MkS + "w": mark}, "refs": map[string]any{}}}})
+				}
+				ops = append(ops, Op{K: "txn", Parts: parts})
+			} else {
+				ds := g.Pick(c.Datasets)
+				ents := g.batch(c, m, ds)
+				uniqueMark(ents, mark)
+				ops = append(ops, Op{K: "batch", DS: ds, Ents: ents})
+			}
+			if g.P(0.15) {
+				ops[len(ops)-1].Sleep = int64(g.PickInt([]int{1, 5, 2000}))
+			}
+		}
+		sc.Tasks = append(sc.Tasks, ops)
+	}
+	nr := g.Range(0, 2)
+	for rr := 0; rr < nr; rr++ {
+		var ops []Op
+		n := g.Range(2, 6)
+		for i := 0; i < n; i++ {
+			switch g.Intn(3) {
+			case 0:
+				var scope []any
+				if g.P(0.5) {
+					for _, d := range c.Datasets {
+						if g.P(0.7) {
+							scope = append(scope, d)
+						}
+					}
+				}
+				ops = append(ops, Op{K: "lookup", S: g.Pick(c.Pool), A: scope})
+			case 1:
+				ops = append(ops, Op{K: "list", DS: g.Pick(c.Datasets), Limit: g.PickInt([]int{0, 0, 2})})
+			default:
+				ops = append(ops, Op{K: "feed", DS: g.Pick(c.Datasets), Limit: g.PickInt([]int{0, 0, 3})})
+			}
+		}
+		sc.Tasks = append(sc.Tasks, ops)
+	}
+	if g.P(0.35) {
+		// a manager task working on its own datasets, which a writer may also touch
+		var ops []Op
+		names := []string{"mgrX", "mgrY"}
+		n := g.Range(1, 4)
+		for i := 0; i < n; i++ {
+			switch g.Intn(3) {
+			case 0:
+				ops = append(ops, Op{K: "createDataset", DS: g.Pick(names)})
+			case 1:
+				ops = append(ops, Op{K: "deleteDataset", DS: g.Pick(names)})
+			default:
+				ops = append(ops, Op{K: "renameDataset", DS: names[0], DS2: names[1]})
+			}
+		}
+		sc.Tasks = append(sc.Tasks, ops)
+		if g.P(0.6) {
+			ents := []Ent{{"id": g.Pick(c.Pool), "props": map[string]any{MkS + "w": "mgrwrite"}, "refs": map[string]any{}}}
+			sc.Tasks[0] = append(sc.Tasks[0], Op{K: "batch", DS: g.Pick(names), Ents: ents})
+		}
+	}
+	sc.Knobs["schedSeed"] = int64(g.r.Uint64() >> 1)
+	sc.Knobs["preemptPct"] = int64(g.PickInt([]int{2, 10, 20, 35, 50}))
+}
+
+func sc0(sc *Scenario, k string, def float64) float64 { return def }
 
 func hashStr(s string) uint64 {
 	var h uint64 = 1469598103934665603
@@ -69,6 +178,8 @@ func Execute(sc *Scenario) *Verdict {
 	switch sc.Profile {
 	case "C01", "C02", "C03":
 		return RunStoreScenario(sc)
+	case "C05":
+		return RunConcScenario(sc)
 	}
 	return execOther(sc)
 }
